@@ -169,6 +169,11 @@ pub fn sphere_vectors(tier: &str) -> Vec<(V3, &'static str)> {
 
 pub fn run_c15(tier: &str) -> Report {
     let mut rep = Report::new("exploration");
+    // a legitimate, unrelated use of the public projection with a caller-supplied triangle comes first
+    // (on another thread): it must leave nothing behind that the face projection reads
+    if let Err(e) = foreign_triangle_probe() {
+        rep.sink.push(viol("C15/forward-error", e, json!({"kind": "foreign"})));
+    }
     let f = rg::frame();
     let pent = geo::ref_face_pentagon();
     let pts = sphere_vectors(tier);
@@ -223,11 +228,17 @@ fn probe_ratio(q: P2, face: usize, radius: f64, rot: f64, splits: usize) -> Resu
     for p in &ring {
         sph.push(subj::inverse(*p, face as u8)?);
     }
-    Ok(rg::poly_area(&sph).abs() / planar.abs())
+    // signed: a map that folds a region back (orientation reversed) keeps the magnitude
+    Ok(rg::poly_area(&sph) / planar)
 }
 
 /// does the probe disc stay within one sector and on one side of the face edge?
 fn probe_clear(q: P2, radius: f64) -> bool {
+    probe_clear_w(q, radius, false)
+}
+/// wedge = true: the point may lie beyond the reflected triangle (the wedge next to a face vertex that
+/// the sector of the face covers by extrapolation and that cell corners reach into)
+fn probe_clear_w(q: P2, radius: f64, wedge: bool) -> bool {
     let rin = geo::face_inradius();
     let rho = (q[0] * q[0] + q[1] * q[1]).sqrt();
     if rho <= radius * 1.5 {
@@ -246,7 +257,7 @@ fn probe_clear(q: P2, radius: f64) -> bool {
     let across = (rho * (a - k2 * 72.0 * rg::DEG).sin()).abs();
     if along > rin {
         // beyond the edge: stay inside the reflected triangle (mirror image of the sector)
-        if across + 1.5 * radius > (2.0 * rin - along) * (36.0 * rg::DEG).tan() {
+        if !wedge && across + 1.5 * radius > (2.0 * rin - along) * (36.0 * rg::DEG).tan() {
             return false;
         }
     }
@@ -399,8 +410,70 @@ pub fn sweeps(tier: &str) -> Vec<Sweep> {
     v
 }
 
+/// The public IVEA projection with a caller-supplied triangle (one octant of the sphere mapped from a
+/// right triangle): signed area ratios of small probes, expected pi (octant area pi/2 over planar area 1/2).
+/// Run on its own thread, before and after the face work: what one use of the projection leaves behind
+/// (process-wide or per thread) must not change another.
+fn foreign_triangle_probe() -> Result<Vec<f64>, String> {
+    use a5::coordinate_systems::{Cartesian, Face, FaceTriangle, SphericalTriangle};
+    use a5::projections::polyhedral::PolyhedralProjection;
+    std::thread::spawn(|| {
+        subj::guard(|| {
+            let st = || SphericalTriangle::new(Cartesian::new(0.0, 0.0, 1.0), Cartesian::new(1.0, 0.0, 0.0), Cartesian::new(0.0, 1.0, 0.0));
+            let ft = || FaceTriangle::new(Face::new(0.0, 0.0), Face::new(1.0, 0.0), Face::new(0.0, 1.0));
+            let proj = PolyhedralProjection::new();
+            let mut out = Vec::new();
+            for (x, y) in [(0.25, 0.25), (0.6, 0.1), (0.1, 0.7)] {
+                let rad = 1e-4;
+                let mut ring2: Vec<P2> = Vec::new();
+                for k in 0..24 {
+                    let a = k as f64 * rg::PI / 12.0;
+                    ring2.push([x + rad * a.cos(), y + rad * a.sin()]);
+                }
+                let sph: Vec<V3> = ring2
+                    .iter()
+                    .map(|p| {
+                        let c = proj.inverse(Face::new(p[0], p[1]), ft(), st());
+                        rg::unit([c.x(), c.y(), c.z()])
+                    })
+                    .collect();
+                out.push(rg::poly_area(&sph) / rg::shoelace(&ring2));
+            }
+            Ok(out)
+        })
+    })
+    .join()
+    .map_err(|_| "foreign-triangle thread died".to_string())?
+}
+
+fn check_foreign(rep: &mut Report, when: &str, baseline: Option<&Vec<f64>>) -> Option<Vec<f64>> {
+    match foreign_triangle_probe() {
+        Ok(r) => {
+            for (i, x) in r.iter().enumerate() {
+                let bad_abs = !((x.abs() / rg::PI - 1.0).abs() <= 1e-4);
+                let bad_rel = baseline.map(|b| b[i].to_bits() != x.to_bits()).unwrap_or(false);
+                if bad_abs || bad_rel {
+                    rep.sink.push(viol(
+                        "C16/foreign-triangle",
+                        format!("the public projection with a caller-supplied octant triangle gives area ratio {:.9} ({}); expected magnitude pi{}", x, when, baseline.map(|b| format!(", and {:.17e} before the face work", b[i])).unwrap_or_default()),
+                        json!({"kind": "foreign", "when": when}),
+                    ));
+                    break;
+                }
+            }
+            Some(r)
+        }
+        Err(e) => {
+            rep.sink.push(viol("C16/inverse-error", e, json!({"kind": "foreign", "when": when})));
+            None
+        }
+    }
+}
+
 pub fn run_c16(tier: &str) -> Report {
     let mut rep = Report::new("exploration");
+    // a legitimate, unrelated use of the public projection first (another, finished thread)
+    let foreign_before = check_foreign(&mut rep, "first projection call of the process", None);
     let expected = geo::area_scale();
     let radii: &[f64] = if tier == "quick" { &[1e-3, 1e-6, 1e-9] } else { &[1e-3, 1e-4, 1e-5, 1e-6, 1e-7, 1e-8, 1e-9, 3e-10] };
     let rots: &[f64] = if tier == "quick" { &[0.3, 1.1] } else { &[0.3, 1.1, 2.0, 2.9] };
@@ -428,6 +501,19 @@ pub fn run_c16(tier: &str) -> Report {
             }
         }
     }
+    // the wedges next to the 5 face vertices, beyond the edge and beyond the reflected triangle, on both
+    // sides of the vertex ray (probe radius = depth / 1000, handled below)
+    let mut wedge: Vec<(P2, f64)> = Vec::new();
+    for qv in 0..5 {
+        let g = 72.0 * qv as f64 * rg::DEG;
+        let (cx, cy) = (rin, rin * (36.0 * rg::DEG).tan());
+        for depth in [1e-3, 1e-2, 5e-2] {
+            for side in [1.0, -1.0] {
+                let (lx, ly) = (cx + depth, side * (cy - 0.2 * depth));
+                wedge.push(([lx * g.cos() - ly * g.sin(), lx * g.sin() + ly * g.cos()], depth * 1e-3));
+            }
+        }
+    }
     // probes right next to the face centre (where all ten triangles meet) for the small radii
     for &rad in radii {
         if rad <= 1e-6 {
@@ -445,6 +531,31 @@ pub fn run_c16(tier: &str) -> Report {
     let worst_at = Mutex::new(json!(null));
     let hard = AtomicU64::new(0);
     for face in 0..12usize {
+        // orientation of the map on this face, from one interior probe: every other probe must agree
+        let orient = match probe_ratio([0.3, 0.1], face, 1e-5, 0.3, splits) {
+            Ok(r) if r.is_finite() && r != 0.0 => r.signum(),
+            _ => 1.0,
+        };
+        // vertex wedges
+        for (q, rad) in &wedge {
+            for &rot in rots {
+                if !probe_clear_w(*q, *rad, true) {
+                    continue;
+                }
+                evals.fetch_add(1, Ordering::Relaxed);
+                hard.fetch_add(1, Ordering::Relaxed);
+                let case = json!({"kind": "probe", "q": [q[0], q[1]], "face": face, "radius": rad, "rot": rot, "orient": orient});
+                match probe_ratio(*q, face, *rad, rot, splits) {
+                    Ok(ratio) => {
+                        let rel = (orient * ratio / expected - 1.0).abs();
+                        if !(rel <= 1e-4) {
+                            rep.sink.push(viol("C16/area-ratio", format!("probe (vertex wedge beyond the edge) signed area ratio {:.9} vs {:.9} (orientation of the face {:+}): relative error {:.3e}", ratio, expected, orient, rel), case));
+                        }
+                    }
+                    Err(e) => rep.sink.push(viol("C16/inverse-error", e, case)),
+                }
+            }
+        }
         let vs: Vec<Viol> = base
             .par_iter()
             .flat_map(|(q, tag)| {
@@ -459,12 +570,12 @@ pub fn run_c16(tier: &str) -> Report {
                         if *tag != "interior" {
                             hard.fetch_add(1, Ordering::Relaxed);
                         }
-                        let case = json!({"kind": "probe", "q": [q[0], q[1]], "face": face, "radius": rad, "rot": rot});
+                        let case = json!({"kind": "probe", "q": [q[0], q[1]], "face": face, "radius": rad, "rot": rot, "orient": orient});
                         let rho = (q[0] * q[0] + q[1] * q[1]).sqrt();
                         let sp = if rho < 100.0 * rad { 4 * splits } else { splits };
                         match probe_ratio(*q, face, rad, rot, sp) {
                             Ok(ratio) => {
-                                let rel = (ratio / expected - 1.0).abs();
+                                let rel = (orient * ratio / expected - 1.0).abs();
                                 {
                                     let mut g = worst.lock().unwrap();
                                     if rel > *g {
@@ -485,6 +596,8 @@ pub fn run_c16(tier: &str) -> Report {
             .collect();
         rep.sink.extend(vs);
     }
+    // ... and the same use again after all the face work: bit-identical answers
+    check_foreign(&mut rep, "after the face work", foreign_before.as_ref());
     // second-difference sweeps
     let h = if tier == "quick" { 1e-7 } else { 2e-8 };
     let sws = sweeps(tier);
@@ -552,6 +665,11 @@ pub fn replay_c15(case: &Value) -> Vec<Viol> {
     }
 }
 pub fn replay_c16(case: &Value) -> Vec<Viol> {
+    if case["kind"] == "foreign" {
+        // the order matters: re-run the quick check as a whole and keep its verdicts
+        let rep = run_c16("quick");
+        return rep.sink.drain().0;
+    }
     if case["kind"] == "sweep" {
         let f = |k: &str| {
             let a = case[k].as_array().unwrap();
@@ -571,7 +689,8 @@ pub fn replay_c16(case: &Value) -> Vec<Viol> {
     let rho = (q[0] * q[0] + q[1] * q[1]).sqrt();
     match probe_ratio(q, face, rad, rot, if rho < 100.0 * rad { 64 } else { 16 }) {
         Ok(ratio) => {
-            let rel = (ratio / geo::area_scale() - 1.0).abs();
+            let orient = case["orient"].as_f64().unwrap_or(ratio.signum());
+            let rel = (orient * ratio / geo::area_scale() - 1.0).abs();
             if rel <= 1e-4 {
                 vec![]
             } else {
